@@ -282,6 +282,11 @@ def keys : Forest → List Key
   | .nil => []
   | .cons _ _ _ kids rest => mkKey (keys kids) :: keys rest
 
+/-- (id, key) of the subtree rooted at every node of a forest, in preorder -/
+def allKeys : Forest → List (Nat × Key)
+  | .nil => []
+  | .cons id _ _ kids rest => (id, mkKey (keys kids)) :: (allKeys kids ++ allKeys rest)
+
 /-- the comparator of the `std::sort` of the isom strings (`rep s` = breadth and depth of `classes[s][0]`) -/
 def classLt (convex : Bool) (rep : String → Nat × Nat) (a b : String) : Bool :=
   let (bA, dA) := rep a
